@@ -929,7 +929,15 @@ impl<'t, 'a, 'b> Gen<'t, 'a, 'b> {
         self.fn_depth += 1;
         self.fn_exprs += 1;
         let scope = self.scope.len();
+        // `self` always means the innermost blob literal: an enclosing literal's `self` cannot be written inside
+        // this method, so it is hidden (its scope entry gets a type nothing asks for) until the method ends
+        let mut hidden_selfs: Vec<(usize, Ty)> = Vec::new();
         if let Some((sv, b)) = self_var {
+            for i in 0..self.scope.len() {
+                if self.p.var(self.scope[i].id).kind == VarKind::SelfVar {
+                    hidden_selfs.push((i, std::mem::replace(&mut self.scope[i].ty, Ty::Tuple(vec![Ty::Void]))));
+                }
+            }
             self.scope.push(SVar { id: sv, ty: Ty::Blob(b), mutable: true, assignable: false, rec: false, global: false });
         }
         let mut params = Vec::new();
@@ -1043,6 +1051,9 @@ impl<'t, 'a, 'b> Gen<'t, 'a, 'b> {
             self.rec_stack.pop();
         }
         self.scope.truncate(scope);
+        for (i, ty) in hidden_selfs {
+            self.scope[i].ty = ty;
+        }
         FnDef { params, ret, body, pure }
     }
 
